@@ -603,6 +603,32 @@ func corpusCases() []h3case {
 		{2, []hf{{"content-length", "5"}}, false, big},
 		{2, []hf{{"if-match", "5"}}, false, big},
 		{2, []hf{{"te", "trailers"}}, false, big},
+		{3, []hf{{":method", "CONNECT"}, {":protocol", ""}, {":authority", "example.com:443"}}, false, big},
+		{3, []hf{{":method", "CONNECT"}, {":protocol", "websocket"}, {":path", "/chat"}, {":authority", "example.com"}}, false, big},
+		{3, []hf{{":method", "CONNECT"}, {":protocol", "websocket"}, {":scheme", "https"}, {":authority", "example.com"}}, false, big},
+		{3, []hf{{":method", "CONNECT"}, {":protocol", "websocket"}, {":scheme", "https"}, {":path", "/chat"}}, false, big},
+		{3, []hf{{":method", "CONNECT"}}, false, big},
+		{3, []hf{{":scheme", "https"}, {":authority", "example.com"}, {":path", "/a"}}, false, big},
+		{3, []hf{{":method", "GET"}, {":scheme", "https"}, {":path", "/a"}}, false, big},
+		{3, []hf{{":method", "GET"}, {":scheme", "https"}, {":authority", "example.com"}}, false, big},
+		{3, []hf{{":method", "GET"}, {":scheme", "https"}, {":authority", "example.com"}, {":path", "a b"}}, false, big},
+		// forbidden bytes and upper case, in pseudo and regular fields, every entry point
+		{0, []hf{{":method", "GET"}, {":scheme", "https"}, {":authority", "a\nb"}, {":path", "/a"}}, false, big},
+		{3, []hf{{":method", "GET"}, {":scheme", "https"}, {":authority", "example.com"}, {":path", "/a\x00"}}, false, big},
+		{3, []hf{{":method", "GET"}, {":scheme", "https"}, {":authority", "example.com"}, {":path", "/a"}, {"x", "a\rb"}}, false, big},
+		{4, []hf{{":status", "200\x7f"}}, false, big},
+		{4, []hf{{":status", "200"}, {"x", "\x00"}}, false, big},
+		{2, []hf{{"x-t1", "a\nb"}}, false, big},
+		{0, with(req, hf{"Accept", "a"}), false, big},
+		{0, with(req, hf{"accepT", "a"}), false, big},
+		{0, []hf{{":Method", "GET"}}, false, big},
+		{1, []hf{{":status", "200"}, {"X-A", "a"}}, false, big},
+		{2, []hf{{"X-T1", "a"}}, false, big},
+		{0, with(req, hf{"x y", "a"}), false, big},
+		{0, with(req, hf{"", "a"}), false, big},
+		{0, with(req, hf{"x\xc3\xa9", "a"}), false, big},
+		{0, with(req, hf{"a", "\xc3\xa9\xff"}), false, big},
+		{0, with(req, hf{":foo", "a"}), false, big},
 		// decode error
 		{0, req, true, big},
 		{2, []hf{{"x-t1", "a"}}, true, big},
@@ -670,7 +696,20 @@ func (h *h3run) monfail(key, desc, detail string) {
 		return
 	}
 	h.seen[k] = true
-	fmt.Fprintf(h.w, "MONFAIL\t%s\t%s\t%s\n", key, desc, detail)
+	fmt.Fprintf(h.w, "MONFAIL\t%s\t%s\t%s\n", key, ascii(desc), ascii(detail))
+}
+
+// ascii keeps the protocol lines valid UTF-8 and tab-free whatever bytes the inputs contain.
+func ascii(s string) string {
+	var sb strings.Builder
+	for i := 0; i < len(s); i++ {
+		if b := s[i]; b >= 0x20 && b < 0x7f {
+			sb.WriteByte(b)
+		} else {
+			fmt.Fprintf(&sb, "\\x%02x", b)
+		}
+	}
+	return sb.String()
 }
 
 func headerMultimap(fs []hf, skip func(name string) bool) map[string][]string {
@@ -983,7 +1022,9 @@ func requestViolations(fs []hf) []string {
 		if ns > 0 {
 			v = append(v, "connect-with-scheme")
 		}
-		if np > 0 {
+		if np > 0 && path == "" {
+			v = append(v, "connect-with-empty-path")
+		} else if np > 0 {
 			v = append(v, "connect-with-path")
 		}
 		if na == 0 || auth == "" {
